@@ -89,6 +89,23 @@ def valid_strings(rng):
     return out
 
 
+def near_miss_suffixes():
+    import itertools
+    from norminette.lexer.lexer import float_suffixes, integer_suffixes
+    out = []
+    for table, body, code in ((float_suffixes, "1.5", "BAD_FLOAT_SUFFIX"), (integer_suffixes, "12", "INVALID_SUFFIX")):
+        seen = set()
+        for suf in table:
+            if len(suf) < 2:
+                continue
+            for pat in itertools.product((0, 1), repeat=len(suf)):
+                v = "".join(ch.upper() if up else ch.lower() for ch, up in zip(suf, pat))
+                if v not in table and v not in seen:
+                    seen.add(v)
+                    out.append((body + v, code))
+    return out
+
+
 # malformed families of DESIGN §4.11: (example, expected code)
 def malformed(rng):
     fam = []
@@ -102,6 +119,8 @@ def malformed(rng):
         fam.append((s, "MAXIMAL_MUNCH"))
     for s in ["0x1p", "0x1.8p+", "0X.8P-", "0x1pp3", "0x1.pf"]:
         fam.append((s, "BAD_EXPONENT"))
+    for s in ["1.e-", "1.5e+", ".5e", "1.5E", "1.5ee3", "10.e+"]:
+        fam.append((s, "BAD_EXPONENT"))
     for s in ["1e", "1e+", "1E-", "12e+;", "1ee5"]:
         fam.append((s.rstrip(";"), "BAD_EXPONENT"))
     for s in ["1.2.3", "1..2", ".1.2", "1.2.3.4"]:
@@ -110,6 +129,8 @@ def malformed(rng):
         fam.append((s, "BAD_FLOAT_SUFFIX"))
     for s in ["0xx1.8p1", "0xX1p3", "0xxx.8p1"]:
         fam.append((s, "MULTIPLE_X"))
+    # near misses of the suffix tables: the same letters in a case pattern the table does not list
+    fam += near_miss_suffixes()
     fam += [("''", "EMPTY_CHAR"), ("L''", "EMPTY_CHAR"), ("'ab'", "CHAR_AS_STRING"), ("'abc'", "CHAR_AS_STRING"),
             ("'a\n", "UNEXPECTED_EOL_CHR"), ("'\n", "UNEXPECTED_EOL_CHR"), ("'a", "UNEXPECTED_EOF_CHR"), ("'", "UNEXPECTED_EOF_CHR"),
             ("\"abc", "UNEXPECTED_EOF_STR"), ("\"", "UNEXPECTED_EOF_STR"), ("\"a\\\n", "UNEXPECTED_EOF_STR"),
